@@ -137,6 +137,18 @@ impl RefModel {
     }
 
     fn sample(&mut self, d: &Dist) -> f64 {
+        if let maybenot::dist::DistType::Uniform { low, high } = d.dist {
+            if low == high {
+                // a constant: computed from the documented rule, not by the crate's
+                // sampler (no draw is consumed for a constant): the start offset is
+                // added, the result is clamped to [0, max], a maximum of 0 is unset
+                let mut r = 0.0f64.max(low + d.start);
+                if d.max > 0.0 {
+                    r = r.min(d.max);
+                }
+                return r;
+            }
+        }
         d.sample(&mut self.rng)
     }
     fn sample_limit(&mut self, a: &Action) -> u64 {
